@@ -1,3 +1,262 @@
-"""placeholder, replaced below"""
+"""Source-level emulation of src/pyModeS/c_common.pyx (secondary engine of C15).
+
+Cython is not installed, so an edited c_common.pyx cannot be translated to C.
+This module rewrites the restricted Cython subset that file uses into Python
+whose typed declarations become explicit C-semantics coercions (two's
+complement wrap of long/int/char, unsigned char masking, str -> char via ord,
+bint -> bool, double -> float), executes it, and serves the result as the
+"C twin".  It is validated on the unchanged tree against the sanitised C build
+(monitor emu_vs_c of C15).  Any construct outside the subset makes the engine
+unusable (-> inconclusive), never a verdict.
+"""
+from __future__ import annotations
+
+import math
+import os
+import re
+import types
+
+from . import core
+
+INT_TYPES = {"long": 64, "int": 32, "Py_ssize_t": 64, "char": 8}
+PASS_TYPES = {"str", "bytearray", "bytes", "object", "array.array", "list", "dict"}
+
+
+class Unsupported(Exception):
+    pass
+
+
+def _wrap(v, bits):
+    v &= (1 << bits) - 1
+    return v - (1 << bits) if v >> (bits - 1) else v
+
+
+def _cv(t, v):
+    """convert a Python value to the C type t the way the generated code would"""
+    if t in ("long", "Py_ssize_t", "int"):
+        if isinstance(v, float):
+            if v != v or v in (math.inf, -math.inf):
+                return -(1 << (INT_TYPES[t] - 1))
+            v = int(v)
+        if isinstance(v, str):
+            if len(v) != 1:
+                raise TypeError("an integer is required")
+            v = ord(v)
+        return _wrap(int(v), INT_TYPES[t])
+    if t == "unsigned char":
+        if isinstance(v, str):
+            v = ord(v)
+        return int(v) & 0xFF
+    if t == "char":
+        if isinstance(v, str):
+            if len(v) != 1:
+                raise TypeError("only single character unicode strings can be converted to Py_UCS4")
+            v = ord(v)
+        return _wrap(int(v), 8)
+    if t == "double":
+        return float(v)
+    if t == "bint":
+        return bool(v)
+    return v
+
+
+def _acos(x):
+    return math.acos(x) if -1.0 <= x <= 1.0 else math.nan
+
+
+def _c_floor(x):
+    return float(math.floor(x)) if x == x and x not in (math.inf, -math.inf) else x
+
+
+def _typed(ret, args):
+    def deco(f):
+        def g(*a, **k):
+            a = list(a)
+            for idx, (nm, t) in enumerate(args):
+                if idx < len(a):
+                    a[idx] = _arg(t, a[idx], nm)
+                elif nm in k:
+                    k[nm] = _arg(t, k[nm], nm)
+            r = f(*a, **k)
+            if ret in INT_TYPES or ret in ("unsigned char", "double", "bint"):
+                return _cv(ret, r)
+            if ret == "str" and r is not None and not isinstance(r, str):
+                raise TypeError("Expected str, got %s" % type(r).__name__)
+            return r
+        g.__name__ = f.__name__
+        g.__doc__ = f.__doc__
+        return g
+    return deco
+
+
+def _arg(t, v, nm):
+    if t == "str":
+        if v is not None and not isinstance(v, str):
+            raise TypeError("Argument '%s' has incorrect type (expected str, got %s)" % (nm, type(v).__name__))
+        return v
+    if t in INT_TYPES or t in ("unsigned char", "double", "bint"):
+        return _cv(t, v)
+    return v
+
+
+TYPE_RE = r"(?:unsigned char|unsigned int|long|int|char|double|float|bint|str|bytearray|bytes|object|Py_ssize_t|array\.array)"
+
+
+def _balanced(s):
+    return s.count("(") == s.count(")") and s.count("[") == s.count("]")
+
+
+def _code_comment(s):
+    """split a source line into (code, trailing comment) - '#' inside quotes does not start a comment"""
+    q = None
+    for i, ch in enumerate(s):
+        if q:
+            if ch == q:
+                q = None
+        elif ch in "\"'":
+            q = ch
+        elif ch == "#":
+            return s[:i].rstrip(), "  " + s[i:]
+    return s, ""
+
+
+def transpile(src: str) -> str:
+    out = ["import array", "from math import cos, fabs, pi"]
+    typed = {}       # typed local names of the current function
+    depth_fn = None
+    lines = src.split("\n")
+    for raw in lines:
+        line, trailing = _code_comment(raw.rstrip())
+        if not line.strip():
+            line, trailing = raw.rstrip(), ""
+        s = line.strip()
+        ind = line[: len(line) - len(line.lstrip())]
+        if s.startswith("# cython:") or s.startswith("cimport ") or (s.startswith("from ") and " cimport " in s) or s.startswith("@cython."):
+            out.append(ind + "pass" if ind else "")
+            continue
+        if re.match(r"(cdef|cpdef)\s+(class|struct|enum|extern|union)\b", s) or s.startswith("ctypedef") or "nogil" in s or \
+                re.search(r"\bsizeof\(|&\w|\w\s*\*\s*\w+\s*=|->", s) and s.startswith("cdef"):
+            raise Unsupported("construct outside the emulated subset: %r" % s)
+        # function headers
+        m = re.match(r"^(\s*)(cdef|cpdef|def)\s+(?:inline\s+)?(?:(%s)\s+)?(\w+)\((.*)\)\s*(?:except\s*[^:]+)?:\s*$" % TYPE_RE, line)
+        if m and (m.group(2) != "def" or m.group(3) is None):
+            ind0, kind, ret, name, args = m.groups()
+            typed = {}
+            alist, names = [], []
+            for a in [x.strip() for x in args.split(",") if x.strip()]:
+                am = re.match(r"^(?:(%s)\s+)?(\w+)\s*(=\s*.+)?$" % TYPE_RE, a)
+                if not am:
+                    raise Unsupported("argument %r of %s" % (a, name))
+                t, nm, dflt = am.groups()
+                if dflt == "=*":
+                    dflt = None
+                names.append(nm + (dflt or ""))
+                alist.append((nm, t or "object"))
+                if t:
+                    typed[nm] = t
+            if kind != "def":
+                out.append("%s@_typed(%r, %r)" % (ind0, ret or "object", alist))
+            out.append("%sdef %s(%s):" % (ind0, name, ", ".join(names)))
+            continue
+        if s.startswith(("cdef ", "cpdef ")) and s.endswith(":"):
+            raise Unsupported("unparsed declaration %r" % s)
+        # local / module-level declarations
+        m = re.match(r"^(\s*)cdef\s+(%s)\s*(\[[^\]]*\])?\s+(\w+)\s*=\s*(.+)$" % TYPE_RE, line)
+        if m:
+            ind0, t, arr, nm, expr = m.groups()
+            if arr is not None:
+                if arr == "[:]":
+                    out.append("%s%s = %s" % (ind0, nm, expr))          # memoryview: alias of the buffer
+                else:
+                    out.append("%s%s = list(%s)" % (ind0, nm, expr))    # fixed-size C array initialised from a sequence
+                continue
+            if t in PASS_TYPES or not _balanced(expr):
+                if t not in PASS_TYPES:
+                    raise Unsupported("multi-line initialiser of a numeric local: %r" % s)
+                out.append("%s%s = %s" % (ind0, nm, expr))
+            else:
+                typed[nm] = t
+                out.append("%s%s = _cv(%r, %s)" % (ind0, nm, t, expr))
+            continue
+        m = re.match(r"^(\s*)cdef\s+(%s)\s+([\w\s,]+)$" % TYPE_RE, line)
+        if m:
+            ind0, t, nms = m.groups()
+            for nm in [x.strip() for x in nms.split(",")]:
+                typed[nm] = t
+            out.append(ind0 + "pass")
+            continue
+        m = re.match(r"^(\s*)cdef\s+(\w+)\s*=\s*(.+)$", line)   # untyped cdef
+        if m:
+            out.append("%s%s = %s" % (m.group(1), m.group(2), m.group(3)))
+            continue
+        if s.startswith("cdef "):
+            raise Unsupported("declaration %r" % s)
+        # casts
+        line = re.sub(r"<\s*(%s)\s*>\s*([\w.]+\([^()]*\))" % TYPE_RE, lambda mm: "_cv(%r, %s)" % (mm.group(1), mm.group(2)), line)
+        if re.search(r"<\s*%s\s*>" % TYPE_RE, line):
+            raise Unsupported("cast in %r" % s)
+        # assignments to typed numeric locals
+        m = re.match(r"^(\s*)(\w+)\s*(\+|-|\*|//|%|\^|\||&|<<|>>)?=\s*(.+)$", line)
+        if m and m.group(2) in typed and typed[m.group(2)] not in PASS_TYPES and _balanced(m.group(4)) and "==" not in line[: line.index("=") + 2]:
+            ind0, nm, op, expr = m.groups()
+            t = typed[nm]
+            if op:
+                out.append("%s%s = _cv(%r, %s %s (%s))" % (ind0, nm, t, nm, op, expr))
+            else:
+                out.append("%s%s = _cv(%r, %s)" % (ind0, nm, t, expr))
+            continue
+        out.append(line)
+    code = "\n".join(out)
+    code = code.replace("PyBytes_GET_SIZE(", "len(").replace("PyByteArray_GET_SIZE(", "len(")
+    code = re.sub(r"(?<![\w.])acos\(", "_acos(", code)
+    code = re.sub(r"(?<![\w.])c_floor\(", "_c_floor(", code)
+    return code
+
+
+EXPECTED = ["hex2bin", "bin2int", "hex2int", "bin2hex", "df", "crc", "floor", "icao", "is_icao_assigned", "typecode", "cprNL", "idcode",
+            "squawk", "altcode", "altitude", "gray2alt", "data", "allzeros", "wrongstatus"]
+
+
+def load(path=None):
+    path = path or os.path.join(core.REPO, "src", "pyModeS", "c_common.pyx")
+    src = open(path, encoding="utf-8").read()
+    code = transpile(src)
+    mod = types.ModuleType("pyModeS.c_common")
+    mod.__dict__.update({"_cv": _cv, "_typed": _typed, "_acos": _acos, "_c_floor": _c_floor, "__file__": path + " (emulated)"})
+    exec(compile(code, path + ":emulated", "exec"), mod.__dict__)
+    missing = [n for n in EXPECTED if not callable(mod.__dict__.get(n))]
+    if missing:
+        raise Unsupported("functions missing after translation: %s" % missing)
+    return mod
+
+
 def selfcheck():
-    return False, "not implemented"
+    try:
+        m = load()
+        # smoke: one call of every function on a benign input must not fail for emulator reasons
+        m.hex2bin("8D"), m.bin2int("101"), m.hex2int("FF"), m.df("8D406B902015A678D4D220AA4BDA"), m.crc("8D406B902015A678D4D220AA4BDA")
+        m.floor(3.6), m.icao("8D406B902015A678D4D220AA4BDA"), m.typecode("8D406B902015A678D4D220AA4BDA"), m.cprNL(10.0)
+        return True, "ok"
+    except Unsupported as e:
+        return False, str(e)
+    except SyntaxError as e:
+        return False, "translated source does not compile: %s" % e
+    except Exception as e:  # a genuine failure of the edited module on a benign call is a finding for the monitors, not here
+        return True, "smoke call raised %s" % type(e).__name__
+
+
+def select(cmod):
+    """make `cmod` the common module of every loaded pyModeS module (library-level C configuration)"""
+    import sys
+    import pyModeS
+    old = pyModeS.common
+    for name, mod in list(sys.modules.items()):
+        if mod is None or not name.startswith("pyModeS"):
+            continue
+        d = getattr(mod, "__dict__", {})
+        if d.get("common") is old:
+            d["common"] = cmod
+    for k, v in cmod.__dict__.items():
+        if not k.startswith("_") and callable(v) and hasattr(old, k) and pyModeS.__dict__.get(k) is getattr(old, k):
+            pyModeS.__dict__[k] = v
+    pyModeS.common = cmod
